@@ -203,3 +203,42 @@ func TestF5b(t *testing.T) {
 		t.Fatal("z")
 	}
 }
+
+// regexRuleFires: the rule /body/ accepts the URL (its regular expression matches), so it must match
+// the request, shortcut pre-check included.
+func regexRuleFires(t *testing.T, rule, url string) bool {
+	t.Helper()
+	f, err := rules.NewNetworkRule(rule, 1)
+	if err != nil {
+		t.Fatal(err)
+	}
+	return f.Match(rules.NewRequest(url, "", rules.TypeScript))
+}
+
+// F12: the letter of a class escape (\d, \w) becomes part of the shortcut.
+func TestF12(t *testing.T) {
+	if !regexRuleFires(t, `/ad\dzonebanner/`, "http://example.org/ad5zonebanner") {
+		t.Fatalf(`/ad\dzonebanner/ does not fire on ad5zonebanner (shortcut %q)`, mk(t, `/ad\dzonebanner/`).Shortcut)
+	}
+}
+
+// F13: one branch of a top-level alternation becomes the shortcut.
+func TestF13(t *testing.T) {
+	if !regexRuleFires(t, `/adverts|banners/`, "http://example.org/banners/1.js") {
+		t.Fatalf(`/adverts|banners/ does not fire on banners (shortcut %q)`, mk(t, `/adverts|banners/`).Shortcut)
+	}
+}
+
+// F14: a character that may repeat zero times (x*) stays in the shortcut.
+func TestF14(t *testing.T) {
+	if !regexRuleFires(t, `/advertx*zone/`, "http://example.org/advertzone") {
+		t.Fatalf(`/advertx*zone/ does not fire on advertzone (shortcut %q)`, mk(t, `/advertx*zone/`).Shortcut)
+	}
+}
+
+// F15: the same with a counted repetition whose minimum is zero (x{0,2}).
+func TestF15(t *testing.T) {
+	if !regexRuleFires(t, `/advertx{0,2}zone/`, "http://example.org/advertzone") {
+		t.Fatalf(`/advertx{0,2}zone/ does not fire on advertzone (shortcut %q)`, mk(t, `/advertx{0,2}zone/`).Shortcut)
+	}
+}
